@@ -252,3 +252,16 @@ ZOO += [
     ('C04-propagate-sensor', 'C04', 'error_model.py', "    delta_sensor = 0.5 * (gyro_error[1:] + gyro_error[:-1] +\n                          accel_error[1:] + accel_error[:-1])",
      "    delta_sensor = 0.5 * (gyro_error[1:] + gyro_error[:-1] +\n                          accel_error[1:] - accel_error[:-1]) + accel_error[:-1] * 0.9"),
 ]
+ZOO += [
+    # ---- C12 feedback vs feedforward
+    ('C12-update-sign', 'C12', 'filters.py', "            gyro_model.update_estimates(x[gyro_block])\n", "            gyro_model.update_estimates(-x[gyro_block])\n"),
+    ('C12-correct-multiply', 'C12', 'inertial_sensor.py', "        corrected = np.linalg.solve(self.transform,\n                                    (increments.values - self.bias * dt).T).T",
+     "        corrected = (self.transform @ (increments.values - self.bias * dt).T).T"),
+    ('C12-cov-raw-increments', 'C12', 'filters.py', "        gyro_average = increments_batch[THETA_COLS].sum(axis=0) / time_delta\n        accel_average = increments_batch[DV_COLS].sum(axis=0) / time_delta\n\n        Phi, Qd = _compute_error_propagation_matrices(\n            pva_average, gyro_average, accel_average, time_delta,\n            error_model, gyro_model, accel_model)\n        P = Phi @ P @ Phi.transpose() + Qd\n\n    P_result",
+     "        gyro_average = increments_batch[THETA_COLS].sum(axis=0) / time_delta\n        accel_average = increments_batch[DV_COLS].sum(axis=0) / time_delta * 0.0\n\n        Phi, Qd = _compute_error_propagation_matrices(\n            pva_average, gyro_average, accel_average, time_delta,\n            error_model, gyro_model, accel_model)\n        P = Phi @ P @ Phi.transpose() + Qd\n\n    P_result"),
+    ('C12-transparent-estimates', 'C12', 'filters.py', "    result[THETA_COLS] = gyro_model.correct_increments(increments['dt'],\n                                                       increments[THETA_COLS])",
+     "    result[THETA_COLS] = gyro_model.correct_increments(increments['dt'],\n                                                       increments[THETA_COLS]) * (1 + 4e-16)"),
+    ('C12-accel-feedback-dropped', 'C12', 'filters.py', "            accel_model.update_estimates(x[accel_block])\n            measurement_time_index += 1\n            increment",
+     "            accel_model.update_estimates(0.5 * x[accel_block])\n            measurement_time_index += 1\n            increment"),
+    ('C12-pva-correction-frame', 'C12', 'filters.py', "                error_model.correct_pva(integrator.get_pva(), x[ins_block]))", "                error_model.correct_pva(integrator.get_pva(), x[ins_block] * np.r_[np.ones(len(x[ins_block]) - 1), 0.5]))"),
+]
